@@ -25,6 +25,23 @@ class Ctx(object):
     pass
 
 
+KNOWN_FALSY_RUN = "falsy-component-run"
+
+
+def witness_falsy_run():
+    """known finding: dr.run(c) with a component object c that is falsy evaluates the default graph instead of c's own"""
+    @W.vplain()
+    def other_():
+        return 1
+    other_.__name__ = "falsy_witness_other"
+    f = W.FalsyCallable(lambda: 2)
+    f.__name__ = f.__qualname__ = "falsy_witness"
+    f.__module__ = __name__
+    comp = W.vplain()(f)
+    b = dr.run(comp, broker=dr.Broker())
+    return other_ in b.instances      # a component that comp does not depend on was evaluated
+
+
 def plain(text):
     """schedule-independent part of the canonical broker: instances, reports, (target, exception) multiset"""
     p = W.split_text(text)
@@ -81,6 +98,9 @@ def run(chk):
                        "component bodies read only their declared dependencies",
                        "dr.add_ignore only on keys that are supplied up front (what spec_factory registers: execution contexts)"]
     chk.lean()
+    if witness_falsy_run():          # before any world exists: the default graph is still small
+        chk.finding_reproduced(KNOWN_FALSY_RUN)
+        chk.witnesses.append("dr.run(falsy component) evaluates the default graph")
     lines, impl, cases = [], [], []
     sub_lines, sub_impl, sub_cases = [], [], []
     summary = []
@@ -223,7 +243,10 @@ def run(chk):
         ref = results[0][1] if results else None
         for name, text, case in results[1:]:
             if text != ref:
-                chk.failure("schedule %s gives a different result than dr.run:\n  run: %s\n  %s: %s" % (name, ref, name, text), case)
+                # known finding: dr.run(c) for a single component OBJECT c whose truth value is False takes the default graph
+                falsy_single = name == "run(component)" and len(targets) == 1 and spec[targets[0]].get("falsy")
+                chk.failure("schedule %s gives a different result than dr.run:\n  run: %s\n  %s: %s" % (name, ref, name, text[:3000]), case,
+                            finding=KNOWN_FALSY_RUN if falsy_single else None)
         # a later registration changes edges among the same components: single pass, sub-graphs and the group graph must still agree
         cands = world.late_candidates(set(world.ids[k] for k in graph)) if dropped is None else []
         if cands and idx % 2 == 0:
